@@ -350,11 +350,18 @@ def remote_cfg(c, entity_id) -> RemoteEntityCfg:
     )
 
 
+NODIR_FILE = "nodir/dst.bin"  # shape 'nodir': the directory of the destination path does not exist
+
+
 def dest_path_requested(c) -> str:
+    if c["shape"] == "nodir":
+        return NODIR_FILE
     return DST_DIR if c["shape"] in ("dir", "dir_existing") else DST_FILE
 
 
 def dest_path_resolved(c) -> str:
+    if c["shape"] == "nodir":
+        return NODIR_FILE
     return os.path.join(DST_DIR, os.path.basename(SRC_PATH)) if c["shape"] in ("dir", "dir_existing") else DST_FILE
 
 
